@@ -1,9 +1,74 @@
-import MaestroVerif.Model.Exec
+import MaestroVerif.Lemmas.ExecDemo
 
-/-! # C02 — Failure and cancellation stop exactly the dependent sub-graph (theorems are being added) -/
+/-!
+# C02 — Failure and cancellation stop exactly the dependent sub-graph
+
+Scope (DESIGN.md §6 C02): the closure half is stated for histories without a
+*study-wide* cancel request (`isCanceled = false`); after such a request nothing
+at all is submitted (C07) and dependents of the steps cancelled by the launch
+loop legitimately stay INITIALIZED.  A job reported CANCELLED *by the scheduler*
+is inside this property.  "Every unrelated step still runs to completion" is the
+liveness half and belongs to C05.
+-/
 namespace MaestroVerif.C02
-open MaestroVerif.Exec MaestroVerif.Gen
+open MaestroVerif.Exec MaestroVerif.Gen Relation
 
-theorem C02_init_not_canceled (cfg : Cfg) : (init cfg).isCanceled = false := rfl
+/-- **Descendant closure**: every child of a failed or cancelled step is failed
+or cancelled. -/
+theorem C02_closed {cfg : Cfg} (wf : WFCfg' cfg) {g : G} (h : Reachable cfg g)
+    (hc : g.isCanceled = false) {i c : Nat} (hi : i ∈ g.failed ∨ i ∈ g.cancelled)
+    (hcc : c ∈ cfg.dag.adj i) : c ∈ g.failed ∨ c ∈ g.cancelled :=
+  closed_reachable wf h hc i c hi hcc
+
+/-- … hence every *transitive* dependent. -/
+theorem C02_descendants_closed {cfg : Cfg} (wf : WFCfg' cfg) {g : G} (h : Reachable cfg g)
+    (hc : g.isCanceled = false) {i d : Nat} (hi : i ∈ g.failed ∨ i ∈ g.cancelled)
+    (hd : Dag.Reach cfg.dag i d) : d ∈ g.failed ∨ d ∈ g.cancelled := by
+  induction hd with
+  | refl => exact hi
+  | tail _ e ih => exact closed_reachable wf h hc _ _ ih e
+
+/-- A failed / cancelled step (hence, by the closure, every dependent of an
+unsuccessful step) is never queued, never tracked, never complete, never
+launched (`freshOk`: no launch ever concerned a resolved step), and is not
+reported INITIALIZED. -/
+theorem C02_no_dependent_runs {cfg : Cfg} (wf : WFCfg' cfg) {g : G} (h : Reachable cfg g)
+    {d : Nat} (hd : d ∈ g.failed ∨ d ∈ g.cancelled) :
+    d ∉ g.ready ∧ d ∉ g.inProgress ∧ d ∉ g.completed ∧ g.status d ≠ .INITIALIZED ∧
+      g.freshOk = true := by
+  have A := invAll_reachable wf h
+  have a := A.toInv.toInvA
+  refine ⟨fun hr => ?_, fun hp => ?_, fun hc => ?_, a.badS d hd, A.b.freshOk⟩
+  · have := a.rD d hr; rcases hd with hd | hd
+    · exact this.1 hd
+    · exact this.2 hd
+  · have := a.ipD d hp; rcases hd with hd | hd
+    · exact this.2.1 hd
+    · exact this.2.2.1 hd
+  · have := a.cD d hc; rcases hd with hd | hd
+    · exact this.1 hd
+    · exact this.2.1 hd
+
+/-- failure is permanent -/
+theorem C02_stays_failed (cfg : Cfg) (g : G) (p : PollIn) (x : Nat)
+    (hx : x ∈ g.failed ∨ x ∈ g.cancelled) :
+    x ∈ (poll cfg g p).1.failed ∨ x ∈ (poll cfg g p).1.cancelled := by
+  rcases hx with hx | hx
+  · exact Or.inl ((poll_completed cfg g p).1.failed x hx)
+  · exact Or.inr ((poll_completed cfg g p).1.cancelled x hx)
+
+/-- A bad report for a tracked step puts its whole sub-tree into the sweep
+queues of that poll (FAILED, UNKNOWN → failed; CANCELLED → cancelled). -/
+theorem C02_bad_report_queues_subtree {cfg : Cfg} (wf : WFCfg cfg) (g : G) (i : Nat) :
+    (∀ x, x ∈ subtree cfg i → x ∈ (report cfg g i (some .FAILED)).cleanup) ∧
+    (∀ x, x ∈ subtree cfg i → x ∈ (report cfg g i (some .UNKNOWN)).cleanup) ∧
+    (∀ x, x ∈ subtree cfg i → x ∈ (report cfg g i (some .CANCELLED)).cancelQ) ∧
+    (∀ x, x ∈ subtree cfg i ↔ Dag.Reach cfg.dag i x) := by
+  refine ⟨?_, ?_, ?_, fun x => mem_subtree wf⟩ <;>
+    (intro x hx; simp [report, terminal, setStatus, hx])
+
+/-! non-vacuity: in the demo history step 2 failed and its dependent 4 was swept -/
+example : (run demoCfg (demoOps.take 5)).isCanceled = false ∧
+    (run demoCfg (demoOps.take 5)).failed = [2, 4] := by decide +kernel
 
 end MaestroVerif.C02
